@@ -74,7 +74,7 @@ fn api(op: &Value) -> &str {
     op["api"].as_str().unwrap_or("p")
 }
 
-/// Format-string literals (the `Arguments::as_str()` fast path); mirrored by `LitsDef` in spec/MC_Str.tla.
+/// Format-string literals (the `Arguments::as_str()` fast path); mirrored by `LitsDef` in spec/StrOps.tla.
 /// Run-time pieces are passed as `{}` arguments, one `write_str` each.
 fn with_args<R>(op: &Value, f: impl FnOnce(fmt::Arguments) -> R) -> R {
     let lit = op["lit"].as_u64().unwrap_or(0);
@@ -84,6 +84,7 @@ fn with_args<R>(op: &Value, f: impl FnOnce(fmt::Arguments) -> R) -> R {
         2 => f(format_args!("a\0é")),
         3 => f(format_args!("")),
         4 => f(format_args!("€😀")),
+        5 => f(format_args!("\0a")),
         0 => match ps.len() {
             0 => f(format_args!("")),
             1 => f(format_args!("{}", ps[0])),
@@ -718,6 +719,10 @@ fn replay<C: Cont>(
         let name = op["name"].as_str().unwrap();
         if ctx.trace {
             eprintln!("AT {beh} {k} {} {cfg}", C::TY);
+        }
+        if is_pure(name) && C::TY == "std" {
+            // the C-string constructors are functions of the bump allocator, not of the string: nothing of std's to record
+            continue;
         }
         pre = post;
         let o = if is_pure(name) {
